@@ -292,6 +292,13 @@ impl SubCheck for Resolve {
                     obs.label("hour_via_set_hour");
                     let h24 = a * 12 + h % 12;
                     ensure!(call("Parsed::set_hour", || p.set_hour(h24))?.is_ok(), "set_hour({h24}) refused on an empty Parsed");
+                    // a conflicting set_hour (same or other half of the day) is refused and changes nothing
+                    for other in [(h24 + 1) % 12 + a * 12, (h24 + 12) % 24, (h24 + 13) % 24] {
+                        if other == h24 { continue; }
+                        let mut q = p.clone();
+                        ensure!(call("Parsed::set_hour", || q.set_hour(other))?.is_err(), "set_hour({other}) after set_hour({h24}) was accepted");
+                        ensure!(q == p, "set_hour({other}) after set_hour({h24}) was refused but changed the fields: {q:?} vs {p:?}");
+                    }
                 }
             }
         }
@@ -320,7 +327,11 @@ impl SubCheck for Resolve {
                         if in_setter_range(i, other) && other != v {
                             let mut q = p.clone();
                             match call("set twice", || set(&mut q, i, other))? {
-                                Err(e) => ensure_eq!(kind(&e), ParseErrorKind::Impossible, "set_{}({other}) after {v}", NAMES[i]),
+                                Err(e) => {
+                                    ensure_eq!(kind(&e), ParseErrorKind::Impossible, "set_{}({other}) after {v}", NAMES[i]);
+                                    // a refused setter leaves every field as it was
+                                    ensure!(q == p, "set_{}({other}) was refused but changed the fields: {q:?} vs {p:?}", NAMES[i]);
+                                }
                                 Ok(()) => return Err(format!("set_{}({other}) after set_{}({v}) was accepted", NAMES[i], NAMES[i])),
                             }
                         }
